@@ -144,17 +144,47 @@ fn off_in(r: &mut Rng, g: &Reg) -> usize {
     }
 }
 
+/// content classes of junk, crossed with every length class: what a never-written, overwritten or
+/// foreign region of a log file looks like
+fn junk_fill(r: &mut Rng, n: usize) -> Vec<u8> {
+    match r.below(8) {
+        0 => vec![0u8; n],
+        1 => {
+            let mut v = Vec::with_capacity(n + 3);
+            while v.len() < n {
+                v.extend_from_slice(b"DLT");
+            }
+            v.truncate(n);
+            v
+        }
+        // one byte value all over: 'D' (the first byte of the pattern), erased flash, blanks
+        2 => vec![*r.pick(&[0x44u8, 0x44, 0xff, 0x20, 0x01, 0x4c, 0x54]); n],
+        3 => {
+            // console text caught in the recording: plenty of capital D, L, T
+            const WORDS: &[&str] = &["DEBUG ", "DLT ", "DONE\n", "LOAD ", "D", "TD", "LT", "DL", "daemon: ", "DLT\u{2}", "0x44 ", "\r\n", "DDDD", "TLD "];
+            let mut v = Vec::with_capacity(n + 8);
+            while v.len() < n {
+                v.extend_from_slice(r.pick(WORDS).as_bytes());
+            }
+            v.truncate(n);
+            v
+        }
+        _ => r.bytes(n),
+    }
+}
+
 fn junk_block(r: &mut Rng) -> Vec<u8> {
     // rarely: a hole larger than any message (zero-filled or garbage sectors after power loss),
     // around the 16 + 65535 boundary and well beyond it
     if r.chance(1, 120) {
-        let n = match r.below(4) {
+        let n = match r.below(5) {
             0 => 65_551 - 8 + r.below(16),
             1 => 65_536 + r.below(64),
             2 => 70_000 + r.below(1000),
+            3 => 12_288 + r.below(8000),
             _ => 131_072 + r.below(100),
         };
-        let mut b = if r.bool() { vec![0u8; n] } else { r.bytes(n) };
+        let mut b = junk_fill(r, n);
         while let Some(i) = crate::model::naive_find(&b) {
             b[i + 3] = 0x02;
         }
@@ -171,18 +201,7 @@ fn junk_block(r: &mut Rng) -> Vec<u8> {
         6 | 7 => ((1usize << (5 + r.below(11))) + r.below(9)).saturating_sub(4),
         _ => 1 + r.below(64),
     };
-    let mut b = match r.below(4) {
-        0 => vec![0u8; n],
-        1 => {
-            let mut v = vec![];
-            while v.len() < n {
-                v.extend_from_slice(b"DLT");
-            }
-            v.truncate(n);
-            v
-        }
-        _ => r.bytes(n),
-    };
+    let mut b = junk_fill(r, n);
     // sprinkle near-patterns
     if n >= 4 && r.chance(1, 3) {
         let p = r.below(n - 3);
